@@ -215,6 +215,118 @@ Definition gen_bfun_counts (nd ed fd id nnodes nedges nfacets : nat) : list nat 
 '''
 
 
+# ------------------------------------------------------------------------------ T1: DOF locations per class
+
+def _frac(x):
+    from fractions import Fraction
+    fr = Fraction(float(x)).limit_denominator(10 ** 6)
+    if float(fr) != float(x):
+        raise TranslateError(f'coordinate {x!r} is not a small rational')
+    return fr
+
+
+def _solve_weights(V, x):
+    """exact convex weights of x over the points V (columns), by Gauss-Jordan over Fractions; None if x is not in their span"""
+    from fractions import Fraction
+    m, d = len(V), len(x)
+    A = [[V[j][i] for j in range(m)] + [x[i]] for i in range(d)] + [[Fraction(1)] * m + [Fraction(1)]]
+    piv, r = [], 0
+    for c in range(m):
+        pr = next((i for i in range(r, len(A)) if A[i][c] != 0), None)
+        if pr is None:
+            return None
+        A[r], A[pr] = A[pr], A[r]
+        A[r] = [a / A[r][c] for a in A[r]]
+        for i in range(len(A)):
+            if i != r and A[i][c] != 0:
+                A[i] = [a - A[i][c] * b for a, b in zip(A[i], A[r])]
+        piv.append(c)
+        r += 1
+    if any(A[i][m] != 0 for i in range(r, len(A))):
+        return None
+    return [A[i][m] for i in range(m)]
+
+
+def gen_locations():
+    """Gen/C04Locs.v: per element class the reference vertices, and per local basis function (in the row order of element_dofs) the
+    local vertices of the entity it is numbered on, its location (Element.doflocs) and convex weights of the location over THOSE vertices"""
+    from fractions import Fraction
+    from .. import c04_elems as EL
+    from ..core import cq
+    out, names, info = [], [], {}
+    for kind, lst in EL.exported().items():
+        for name, fac in lst:
+            e = fac()
+            cn = 'lc_' + ''.join(ch if ch.isalnum() else '_' for ch in name)
+            if not hasattr(e, 'doflocs') or not np.isfinite(np.asarray(e.doflocs, dtype=float)).all():
+                info[name] = 'no (finite) doflocs'
+                continue
+            rd = e.refdom
+            d = int(rd.dim())
+            P = [[_frac(rd.p[i, v]) for i in range(d)] for v in range(rd.nnodes)]
+            X = np.asarray(e.doflocs, dtype=float)
+            try:
+                [[_frac(v) for v in row] for row in X]
+            except TranslateError:
+                info[name] = 'excluded: a location is not a small rational (Gauss points)'
+                continue
+            nd, ed, fd, idd = (int(e.nodal_dofs), int(e.edge_dofs) if d == 3 else 0, int(e.facet_dofs), int(e.interior_dofs))
+            ents = [(0, i, [i], nd) for i in range(rd.nnodes)]
+            ents += [(1, s, list(sl), ed) for s, sl in enumerate(rd.edges or [])] if ed else []
+            ents += [(2, s, list(dict.fromkeys(sl)), fd) for s, sl in enumerate(rd.facets)] if fd else []
+            ents += [(3, 0, list(range(rd.nnodes)), idd)]
+            tensor = rd.__name__ in ('RefQuad', 'RefHex')
+            rows, r = [], 0
+            for kd, s, verts, cnt_ in ents:
+                for k in range(cnt_):
+                    if r >= X.shape[0]:
+                        raise TranslateError(f'{name}: doflocs has fewer rows than local basis functions')
+                    x = [_frac(v) for v in X[r]]
+                    if tensor:
+                        w = []
+                        for v in verts:
+                            q = Fraction(1)
+                            for a, b in zip(P[v], x):
+                                q *= b if a == 1 else 1 - b
+                            w.append(q)
+                    else:
+                        w = _solve_weights([P[v] for v in verts], x) or [Fraction(0)] * len(verts)
+                    rows.append((kd, s, k, verts, w, x))
+                    r += 1
+            sh = [rw for rw in rows if rw[0] in (1, 2)]
+            if all(len(set(rw[4])) <= 1 for rw in sh):
+                sym = 2
+            elif rd.__name__ in ('RefTri', 'RefLine') and all(rw[3] == sorted(rw[3]) for rw in sh) and \
+                    all(a[4] == b[4] for a in sh for b in sh if (a[0], a[2]) == (b[0], b[2])):
+                sym = 1
+            else:
+                sym = 0
+            qs = lambda l: clist([cq(q) for q in l])
+            rowtxt = clist([f'mkLrow {kd} {s} {k} {cnats(v)} {qs(w)} {qs(x)}' for kd, s, k, v, w, x in rows])
+            out.append(f'Definition {cn} : lclass := mkLclass {d} {clist([qs(p) for p in P])} {"true" if tensor else "false"} {sym}\n  {rowtxt}.\n'
+                       f'Lemma {cn}_ok : lclass_ok {cn} = true.\nProof. vm_compute. reflexivity. Qed.\n')
+            names.append(cn)
+            info[name] = {'rows': len(rows), 'sym': ['none', 'sorted cells', 'any order'][sym]}
+    txt = ('(* GENERATED by vlib/props/c04.py from Element.doflocs and skfem/refdom.py (by evaluation) — do not edit *)\n'
+           'From Coq Require Import List Arith QArith.\nImport ListNotations.\nRequire Import Model.C04_Locs Proofs.C04_LocsProofs.\n'
+           + ''.join(out)
+           + 'Definition loc_classes : list lclass := ' + clist(names) + '.\n'
+           + 'Lemma loc_classes_ok : Forall (fun c => lclass_ok c = true) loc_classes.\nProof.\n  unfold loc_classes.\n'
+           + ''.join(f'  apply Forall_cons; [exact {n}_ok|].\n' for n in names) + '  apply Forall_nil.\nQed.\n'
+           + '''
+(* for EVERY element class with a location table: every DOF location lies ON the reference entity its row is numbered on (a vertex
+   DOF at that vertex, an edge / facet DOF a convex combination of that entity's vertices only, an interior DOF inside the cell); the
+   weights are the first-order shape functions, so the mapped location is the same combination of the GLOBAL vertices of the entity;
+   and (sym = 2) that combination does not depend on the order in which a cell lists the entity's vertices, resp. (sym = 1, sorted
+   simplices) the k-th DOF of an entity has the same weights on every slot and the slots list their vertices increasingly: the
+   mapped reference locations of a shared entity coincide from both cells — the hypothesis of C04_doflocs_consistent *)
+Theorem C04_doflocs_consistent_every_class : forall c, In c loc_classes -> class_spec c.
+Proof. intros c Hc. apply lclass_ok_sound. exact (proj1 (Forall_forall _ _) loc_classes_ok c Hc). Qed.
+Print Assumptions C04_doflocs_consistent_every_class.
+''')
+    return txt, info
+
+
 # ------------------------------------------------------------------------------ terms
 
 def crows(a):
@@ -391,6 +503,13 @@ def run(ctx):
     if gen_ok:
         ctx.compile_dyn(['gen/C04Gen.v'] + ctx.copy_dyn())
         ctx.prove()
+    try:
+        ltxt, linfo = gen_locations()
+        ctx.write_gen('C04Locs', ltxt)
+        ctx.extra['location_classes'] = linfo
+        ctx.compile_dyn(['gen/C04Locs.v'], timeout=400)
+    except TranslateError as e:
+        ctx.broke('translator', 'c04.gen_locations (Element.doflocs)', e)
     rng = np_seed(ctx, 4)
     cases = []
     nmesh = ctx.n(1, 5)
